@@ -525,6 +525,7 @@ func main() {
 		"the handlers are called through VerifDispatch (client/network/verif_export.go), a copy of the body of Run's loop; gen_c18 re-extracts Run's command table and gate on every run and Lean compares them with the frozen copy",
 		"what lies behind the parsing layer (peer database, header acceptance, mempool matching, block queue) runs for real in the harness but is NOT modelled; the model's verdict is compared up to the point where the backend decides",
 		"client globals are initialised by the harness the way client/init.go + client/main.go do (synthetic easy-PoW chain from go/chainkit, empty mempool, temp-dir peers database)",
+		"blocktxn / cmpctblock payloads are compared with the model up to 40000 bytes (the executable model of these two loops is quadratic on Lean lists); at the full size limit only the real code is run",
 		"getmp counts between 2^24 and 2^62 are kept out of the generated stream: ProcessGetMP passes the peer's count as size hint to make(map) (authorised peers only; an out-of-memory abort cannot be observed in-process)",
 	}
 
@@ -557,7 +558,7 @@ func main() {
 	h.oldWitnesses()
 	// 3. generated
 	gen := &Gen{e: e, g: r.Rng.Fork(), r: r}
-	n := r.N(6000, 120000)
+	n := r.N(12000, 100000)
 	for i := 0; i < n; i++ {
 		cmd := Commands[gen.g.Intn(len(Commands))]
 		cs := gen.Structured(cmd)
@@ -606,8 +607,29 @@ func (h *Harness) boundaries(gen *Gen) {
 	for _, cmd := range Commands {
 		max := int(network.VerifMaxMsgSize(cmd))
 		ls := append([]int{}, lens...)
+		big := max
+		if cmd == "blocktxn" || cmd == "cmpctblock" {
+			// the executable model of these two loops re-slices the payload per element (quadratic in
+			// Lean lists); the real code is run at the full limit, the model compared up to 40000 bytes
+			big = 40000
+		}
 		if h.r.Thorough() || max <= 200000 {
-			ls = append(ls, max-1, max)
+			ls = append(ls, big-1, big)
+			if big != max {
+				for _, fill := range []byte{0x00, 0xfd} {
+					pl := make([]byte, max)
+					for i := range pl {
+						pl[i] = fill
+					}
+					o := h.rn.Do(Case{Cmd: cmd, Pl: hex.EncodeToString(pl), Note: "boundary-real-only"})
+					h.r.Eval("cmd:"+cmd, fmt.Sprint(cmd, "max", fill))
+					h.r.Hit("boundary:real-only-at-limit")
+					if o.Panic != "" || len(o.Locks) > 0 || o.Hang || o.Ms > 4000 {
+						h.r.PropFail(cmd+":limit", fmt.Sprintf("%s at the size limit: panic=%q locks=%v ms=%.0f", cmd, o.Panic, o.Locks, o.Ms), map[string]interface{}{"case": Case{Cmd: cmd, Pl: fmt.Sprintf("%02x", fill), Note: "repeat the byte to the size limit"}})
+					}
+					housekeeping()
+				}
+			}
 		}
 		for _, n := range ls {
 			if n < 0 || n > max {
